@@ -124,6 +124,9 @@ func (in *Interp) spawn(fr *Frame, fnv Value, args []Value) {
 				return
 			}
 			next := s.pick(c)
+			for next == nil && in.fireTimer() {
+				next = s.pick(c)
+			}
 			if next == nil {
 				s.abort = pathEnd{kind: "unsupported", msg: "deadlock: every goroutine is blocked"}
 				next = main
@@ -136,14 +139,18 @@ func (in *Interp) spawn(fr *Frame, fnv Value, args []Value) {
 	in.switchTo(me, c)
 }
 
-// block suspends the running coroutine until cond holds.
+// block suspends the running coroutine until cond holds. When nothing can run, logical time advances
+// to the earliest armed timer (timers fire only when every goroutine is blocked).
 func (in *Interp) block(cond func() bool, what string) {
 	if cond() {
 		return
 	}
 	s := in.sch
 	if s == nil {
-		in.unsupported(what + " (would block)")
+		if len(in.timers) == 0 {
+			in.unsupported(what + " (would block)")
+		}
+		s = in.schedInit()
 	}
 	if in.mergeDepth > 0 {
 		panic(mergeFail{"blocking operation inside merged callee"})
@@ -153,12 +160,84 @@ func (in *Interp) block(cond func() bool, what string) {
 		me.cond = cond
 		next := s.pick(me)
 		if next == nil {
+			if in.fireTimer() {
+				continue
+			}
 			me.cond = nil
 			in.unsupported("deadlock: " + what + " blocks and no goroutine can run")
 		}
 		in.switchTo(me, next)
 	}
 	me.cond = nil
+}
+
+// ---- logical time: timers and tickers ----
+
+type timerRec struct {
+	ch     *ChanObj
+	at     int64
+	period int64
+	armed  bool
+}
+
+func (in *Interp) armTimer(ch *ChanObj, d int64, periodic bool) {
+	if d < 0 {
+		d = 0
+	}
+	for _, t := range in.timers {
+		if t.ch == ch {
+			t.at, t.armed = in.now+d, true
+			if periodic {
+				t.period = d
+			}
+			return
+		}
+	}
+	t := &timerRec{ch: ch, at: in.now + d, armed: true}
+	if periodic {
+		t.period = d
+	}
+	in.timers = append(in.timers, t)
+}
+
+func (in *Interp) disarmTimer(ch *ChanObj) bool {
+	for _, t := range in.timers {
+		if t.ch == ch && t.armed {
+			t.armed = false
+			return true
+		}
+	}
+	return false
+}
+
+// fireTimer advances the clock to the earliest armed timer and delivers its tick.
+func (in *Interp) fireTimer() bool {
+	var best *timerRec
+	for _, t := range in.timers {
+		if t.armed && (best == nil || t.at < best.at) {
+			best = t
+		}
+	}
+	if best == nil {
+		return false
+	}
+	in.timerFires++
+	if in.timerFires > 64 {
+		in.unsupported("more than 64 timer expiries on one path")
+	}
+	if best.at > in.now {
+		in.now = best.at
+	}
+	if len(best.ch.buf) == 0 {
+		in.setChan(best.ch, []Value{in.zero(best.ch.elemT)}, best.ch.closed)
+		best.ch.sent++
+	}
+	if best.period > 0 {
+		best.at = in.now + best.period
+	} else {
+		best.armed = false
+	}
+	return true
 }
 
 // killCoros unwinds every coroutine that is still alive at the end of a path.
